@@ -7,6 +7,8 @@
 (*                     raw, parsed fully escaped, and built.               *)
 (*  MODE = "lookup"  : strings near the seven type names -> from_str.      *)
 (*  MODE = "combined": combined names over {a b / :} x seven types.        *)
+(*  MODE = "combesc": the same over {@ % 2 F f 3 A : /}: escaped spellings *)
+(*                    of the separators are ordinary characters here.       *)
 (*  MODE = "typestr" : type strings over {g B T 1 . + - ! , e-acute} for   *)
 (*                     the four generic type parameters (C13).             *)
 (***************************************************************************)
@@ -15,6 +17,8 @@ CONSTANTS MODE, L
 
 NameAlpha == <<97, 65, 49, 45, 95, 46, 198, 453, 931, 233, 304>>      \* a A 1 - _ . AE Dz(titlecase) Sigma e-acute I-dot(two-scalar mapping)
 CombAlpha == <<97, 98, 47, 58>>
+CombEscAlpha == <<64, 37, 50, 70, 102, 51, 65, 58, 47>>               \* @ % 2 F f 3 A : /
+IsComb == MODE \in {"combined", "combesc"}
 TypesN == <<PYPI, NUGET, CARGO, NPM, MAVEN>>
 AllTypes == <<CARGO, GEM, GOLANG, MAVEN, NPM, NUGET, PYPI>>
 
@@ -43,8 +47,8 @@ LookupUniverse ==
 VARIABLES w, t, done
 vars == <<w, t, done>>
 TypeAlpha == <<103, 66, 84, 90, 49, 46, 43, 45, 33, 44, 233, 8490, 13, 16>>     \* g B T Z 1 . + - ! , e-acute Kelvin CR DLE
-Alpha == IF MODE = "combined" THEN CombAlpha ELSE IF MODE = "typestr" THEN TypeAlpha ELSE NameAlpha
-TypeSeq == IF MODE = "combined" THEN AllTypes ELSE IF MODE = "typestr" THEN <<CARGO>> ELSE TypesN
+Alpha == IF MODE = "combined" THEN CombAlpha ELSE IF MODE = "combesc" THEN CombEscAlpha ELSE IF MODE = "typestr" THEN TypeAlpha ELSE NameAlpha
+TypeSeq == IF IsComb THEN AllTypes ELSE IF MODE = "typestr" THEN <<CARGO>> ELSE TypesN
 Init == IF MODE = "lookup" THEN w \in LookupUniverse /\ t = 1 /\ done = TRUE
         ELSE w = <<>> /\ t \in 1..Len(TypeSeq) /\ done = FALSE
 Next == /\ MODE # "lookup" /\ Len(w) < L
@@ -88,7 +92,7 @@ C15_Names == /\ \A a, b \in TypeNames : (ALowerS(a) = ALowerS(b)) => a = b
 \* ---- combined (C18)
 Sp == SplitCombined(Ty, w)
 CombB == BuildF(Typed, Ty, [NoParts EXCEPT !.ns = Sp.ns, !.name = Sp.name], LowerTab)
-C18_Split == MODE = "combined" =>
+C18_Split == IsComb =>
      /\ (Ty \in {GOLANG, NPM} => (IF Contains(w, SLASH) THEN Sp.name = Drop(w, LastIdx(w, SLASH)) /\ ~Contains(Sp.name, SLASH)
                                                               /\ Sp.ns \o <<SLASH>> \o Sp.name = w
                                   ELSE Sp.ns = <<>> /\ Sp.name = w))
@@ -96,7 +100,7 @@ C18_Split == MODE = "combined" =>
                         ELSE Sp.ns = <<>> /\ Sp.name = w))
      /\ (Ty \notin {GOLANG, NPM, MAVEN} => Sp.ns = <<>> /\ Sp.name = w)
 \* inverse law: for a built value satisfying the side condition, the constructor reproduces ns and name
-C18_Inverse == (MODE = "combined" /\ CombB.ok /\ CombinedInvertible(CombB.v)) =>
+C18_Inverse == (IsComb /\ CombB.ok /\ CombinedInvertible(CombB.v)) =>
      LET s2 == SplitCombined(Ty, JoinCombined(CombB.v)) IN s2.ns = CombB.v.ns /\ s2.name = CombB.v.name
 
 \* ---- type strings (C13): the separately transcribed finish implementations coincide
@@ -127,7 +131,7 @@ EmitLookup == MODE = "lookup" =>
          PrintT(<<"CASE", ToJson([k |-> "parse", s |-> LookupPurl, gj |-> Judge(LookupPurl, Generic, LowerTab),
                                    go |-> Outcome(ParseF(LookupPurl, Generic, LowerTab)),
                                    tj |-> Judge(LookupPurl, Typed, LowerTab), to |-> Outcome(ParseF(LookupPurl, Typed, LowerTab))])>>))
-EmitCombined == MODE = "combined" =>
+EmitCombined == IsComb =>
    PrintT(<<"CASE", ToJson([k |-> "comb", t |-> Ty, s |-> w, split |-> Sp, out |-> Outcome(CombB),
                              joined |-> IF CombB.ok THEN JoinCombined(CombB.v) ELSE <<>>,
                              invertible |-> (CombB.ok /\ CombinedInvertible(CombB.v))])>>)
